@@ -54,11 +54,12 @@ pub async fn create_remote_dirs(
     use std::fmt::Write;
     use tokio::io::AsyncWriteExt;
 
-    // Build a newline-delimited list of full paths
-    let mut dir_list = format!("{remote_root}\n");
+    // Build a NUL-delimited list of full paths (a directory name may contain a
+    // newline, never a NUL)
+    let mut dir_list = format!("{remote_root}\0");
     for dir in dirs {
-        // GH-23: writeln! to String is infallible in practice, but log if it fails
-        if writeln!(dir_list, "{}/{}", remote_root, dir.display()).is_err() {
+        // GH-23: write! to String is infallible in practice, but log if it fails
+        if write!(dir_list, "{}/{}\0", remote_root, dir.display()).is_err() {
             eprintln!(
                 "Warning: failed to format directory path: {}",
                 dir.display()
@@ -69,7 +70,7 @@ pub async fn create_remote_dirs(
     // Pipe directory list via stdin, read line-by-line and mkdir each
     let mut child = tokio::process::Command::new("ssh")
         .arg(host)
-        .arg("xargs -d '\\n' mkdir -p")
+        .arg("xargs -0 mkdir -p")
         .stdin(std::process::Stdio::piped())
         .stdout(std::process::Stdio::null())
         .stderr(std::process::Stdio::piped())
